@@ -151,6 +151,19 @@ func (e *c12env) execC12(inv gencore.Invocation, other *gencore.Invocation, t *t
 			}
 		}
 	}
+	// one permutation seed per site at a fixed tape position (0 = sorted)
+	seeds := map[int]uint32{}
+	ids := make([]int, 0, len(e.sites))
+	for id := range e.sites {
+		ids = append(ids, id)
+	}
+	sort.Ints(ids)
+	for _, id := range ids {
+		v := uint32(t.Choose(1<<16, "site-seed"))
+		if active == nil || active[id] {
+			seeds[id] = v
+		}
+	}
 	o.h = t.Choose(5, "history")
 	if o.h == 3 && e.job.CLI == "" {
 		o.h = 0
@@ -215,7 +228,7 @@ func (e *c12env) execC12(inv gencore.Invocation, other *gencore.Invocation, t *t
 		sib := *other
 		sib.GenClient, sib.APIHandler, sib.DoNotEdit, sib.Package, sib.BasePath, sib.SpecHandler = inv.GenClient, inv.APIHandler, inv.DoNotEdit, inv.Package, inv.BasePath, inv.SpecHandler
 		rootDir := filepath.Join(filepath.Dir(in), "tree")
-		r = gencore.RunDirInProcess([]gencore.Invocation{sib, inv}, []string{"a_sibling", "b_target"}, rootDir, gencore.Sched{Tape: t, Active: active, ClockOffset: o.toff, Ambient: o.ambient, Stall: o.stall}, e.root)
+		r = gencore.RunDirInProcess([]gencore.Invocation{sib, inv}, []string{"a_sibling", "b_target"}, rootDir, gencore.Sched{Tape: t, Active: active, SiteSeeds: seeds, ClockOffset: o.toff, Ambient: o.ambient, Stall: o.stall}, e.root)
 		out = filepath.Join(rootDir, "b_target", "out")
 		if r.Err != "" && !strings.Contains(r.Err, "b_target") {
 			// the sibling failed to generate: -dir mode stops there; nothing to compare for the target
@@ -227,7 +240,7 @@ func (e *c12env) execC12(inv gencore.Invocation, other *gencore.Invocation, t *t
 		for i := range vals {
 			vals[i] = uint32(t.Choose(5040, "cli-order"))
 		}
-		r = gencore.RunCLI(e.job.CLI, inv, in, out, gencore.Sched{Active: active, ClockOffset: o.toff, FaultAt: -1, Ambient: o.ambient, Stall: o.stall}, vals, e.masked, filepath.Join(filepath.Dir(in), "plan.json"))
+		r = gencore.RunCLI(e.job.CLI, inv, in, out, gencore.Sched{Active: active, SiteSeeds: seeds, ClockOffset: o.toff, FaultAt: -1, Ambient: o.ambient, Stall: o.stall}, vals, e.masked, filepath.Join(filepath.Dir(in), "plan.json"))
 		for _, v := range vals {
 			if v != 0 {
 				// attribution is not available from the child; deviated stays empty unless the log says so
@@ -235,7 +248,7 @@ func (e *c12env) execC12(inv gencore.Invocation, other *gencore.Invocation, t *t
 			}
 		}
 	} else {
-		r = gencore.RunInProcess(inv, in, out, gencore.Sched{Tape: t, Active: active, ClockOffset: o.toff, FaultAt: o.faultAt, Kind: o.faultKind, TornNum: 1, TornDen: 2, Ambient: o.ambient, Stall: o.stall}, e.root)
+		r = gencore.RunInProcess(inv, in, out, gencore.Sched{Tape: t, Active: active, SiteSeeds: seeds, ClockOffset: o.toff, FaultAt: o.faultAt, Kind: o.faultKind, TornNum: 1, TornDen: 2, Ambient: o.ambient, Stall: o.stall}, e.root)
 	}
 	o.deviated = r.Deviated
 	o.events = r.Events
@@ -449,6 +462,15 @@ func (e *c12env) shrinkC12(run int, inv gencore.Invocation, other *gencore.Invoc
 	o := e.replayOutcome(inv, other, min, masked)
 	if !o.violated {
 		return nil
+	}
+	// site-level minimisation: pin every deviating site that is not needed for the difference to sorted order
+	if len(o.deviated) > 1 && !o.late {
+		for _, site := range append([]int(nil), o.deviated...) {
+			try := append(append([]int(nil), masked...), site)
+			if o2 := e.replayOutcome(inv, other, min, try); o2.violated && !o2.late && len(o2.deviated) > 0 {
+				masked, o = try, o2
+			}
+		}
 	}
 	key := e.keyOf(o)
 	var trace []string
